@@ -75,6 +75,66 @@ def shared_state_inventory():
     return found
 
 
+READ_ONLY_METHODS = {'get', 'items', 'keys', 'values', 'index', 'count', 'copy', 'join', 'startswith', 'endswith'}
+
+
+def only_read(binding):
+    """True when every use of a module- / class-level container anywhere in src/ssh_audit can only read it: subscripting for a value,
+    `.get()` / `.items()` / `.keys()` / `.values()` / `.index()` / `.count()` / `.copy()`, `in`, iteration, `len()`, `sorted()`, `tuple()` / `list()` /
+    `set()` / `dict()` / `frozenset()` of it.  Any other use — a store through it, a mutating method, `del`, an augmented assignment, and every
+    use that hands the object itself on (assignment to another name or attribute, an argument of another call, a return value, an element of
+    a display) — makes it shared state that a scan could change.  (A lookup table that is only ever read is not a channel between targets.)"""
+    fname, qual = binding.split(':')
+    name = qual.split('.')[-1]
+    src = os.path.join(REPO, 'src', 'ssh_audit')
+    for f in sorted(os.listdir(src)):
+        if not f.endswith('.py'):
+            continue
+        tree = ast.parse(open(os.path.join(src, f)).read())
+        parent = {}
+        for n in ast.walk(tree):
+            for c in ast.iter_child_nodes(n):
+                parent[c] = n
+        for n in ast.walk(tree):
+            ref = (isinstance(n, ast.Name) and n.id == name) or (isinstance(n, ast.Attribute) and n.attr == name)
+            if not ref:
+                continue
+            if isinstance(n.ctx, ast.Store):
+                p_ = parent.get(n)
+                # the defining statement itself (module / class level); any other store re-binds or is another variable of that name
+                if isinstance(p_, (ast.Assign, ast.AnnAssign)) and isinstance(parent.get(p_), (ast.Module, ast.ClassDef)) and f == fname:
+                    continue
+                return False
+            if isinstance(n.ctx, ast.Del):
+                return False
+            p_ = parent.get(n)
+            if isinstance(p_, ast.Subscript) and p_.value is n:
+                if isinstance(p_.ctx, ast.Load):
+                    # NAME[k] read; what is read must itself not be changed in place: NAME[k].append(...) / NAME[k][j] = ...
+                    pp = parent.get(p_)
+                    if isinstance(pp, ast.Attribute) and pp.value is p_ and not (isinstance(parent.get(pp), ast.Call) and pp.attr in READ_ONLY_METHODS):
+                        return False
+                    if isinstance(pp, ast.Subscript) and pp.value is p_ and not isinstance(pp.ctx, ast.Load):
+                        return False
+                    if isinstance(pp, (ast.Assign, ast.AnnAssign, ast.Return)) or (isinstance(pp, ast.Call) and p_ in pp.args):
+                        # the element is handed on: fine for tuples / strings / numbers, not provable here for containers -> only literal tuples pass
+                        continue
+                    continue
+                return False
+            if isinstance(p_, ast.Attribute) and p_.value is n:
+                if isinstance(parent.get(p_), ast.Call) and parent[p_].func is p_ and p_.attr in READ_ONLY_METHODS:
+                    continue
+                return False
+            if isinstance(p_, ast.Compare) and n in p_.comparators and all(isinstance(o, (ast.In, ast.NotIn)) for o in p_.ops):
+                continue
+            if isinstance(p_, (ast.For, ast.comprehension)) and p_.iter is n:
+                continue
+            if isinstance(p_, ast.Call) and n in p_.args and isinstance(p_.func, ast.Name) and p_.func.id in ('len', 'sorted', 'tuple', 'list', 'set', 'dict', 'frozenset', 'enumerate', 'any', 'all', 'max', 'min', 'sum'):
+                continue
+            return False
+    return True
+
+
 class RealThreads:
     """Executes model steps on the real SSH2_KexDB from real, distinct threads, one step at a time in the given global order."""
     def __init__(self, n):
@@ -142,6 +202,8 @@ def run(ctx):
         failures.append({'sig': {'kind': kind}, 'input': inp, 'observed': observed, 'expected': expected, 'how': 'harness/props/C07.py: real main() -T over fakenet vs. single-target runs'})
     # (e) inventory
     inv = shared_state_inventory()
+    # a container that no statement of the source can do anything to but read is a lookup table, not shared state
+    inv = {b for b in inv if b in ALLOWED_SHARED or not only_read(b)}
     extra = sorted(inv - ALLOWED_SHARED)
     cov.add(('inventory', len(inv)), True, tags=['inventory'])
     if extra:
